@@ -103,9 +103,22 @@ func c17Sequence(c *fw.Case) {
 			for k := range p {
 				p[k] = r.U64() % (idMax[k] + 1)
 			}
+			if r.Chance(1, 4) { // the last values before a carry into the next field
+				p[6] = uint64(r.Pick(65535, 65534, 65535, 9999, 99999%65536))
+				if r.Chance(1, 4) {
+					p[5] = idMax[5]
+				}
+			}
 			id := refCombine(p)
 			if r.Chance(1, 12) {
 				id = 0
+			}
+			if len(held) > 0 && r.Chance(1, 3) {
+				// ids are issued in order: the successor (or a near neighbour) of the one converted last
+				id = held[len(held)-1].id + uint64(r.Pick(1, 1, 1, 2, 10, 65536, 1<<16-1))
+				if r.Chance(1, 8) {
+					id = held[len(held)-1].id - 1
+				}
 			}
 			var s string
 			if pan, val, st := fw.Try(func() { s = cmpp.MsgID2String(id) }); pan {
